@@ -407,7 +407,7 @@ def run_replicas(name, tier, seed, work):
         disagreements += 1
         mism.append(dict(kind='replicas', event=dict(type='source'), fields=['wall clock / unseeded randomness'], impl_ok=True, spec_ok=True,
                          detail=dict(source='src-scan', path=f['file'], pos=f['line'], what=f['what']), path=[]))
-    log('[%s] source scan of x/ophost and x/opchild: %d reads of the wall clock outside telemetry, unseeded randomness' % (name, len(scan)))
+    log('[%s] source scan of x/ophost and x/opchild: %d reads of the wall clock outside telemetry, unseeded randomness, goroutines' % (name, len(scan)))
     walk = dict(states=r0['distinct'], edges=lines, edges_ok=lines, replayed=lines, unreached_states=0, skipped_subtrees=0, by_type=by_type,
                 mismatches=mism[:50], n_mismatch=disagreements, samples=samples[:3], findings={}, finding_samples={}, sources=src_stats)
     return dict(name=name, tlc=dict(r0), walk=walk, meta=dict(tier=tier), scale='-', walker='det-run')
